@@ -6,6 +6,10 @@ fields, bitwise after canonical sorting) must equal the one of the all-pairs bro
 every candidate pair to the (shared) narrowphase.
 """
 
+import inspect
+import re
+import xml.etree.ElementTree as ET
+
 import mujoco
 import numpy as np
 
@@ -18,8 +22,15 @@ RULE = (
   "case=(kind,size class,nworld,sleep,seed): 'crowd' scenes of 6/10/14 random geoms (all types incl. meshes) thrown into a "
   "box over a (tilted) plane and/or height field, 5% coincident centres (ties in the sweep projection), margins, gaps, explicit "
   "<pair>s with their own margin/gap, excludes; 'pairs' scenes with pairs steered to grazing / margin-band / gap-band distances "
-  "(where a bounding-volume filter decides); 'tree' scenes from mon.gen (several geoms per body, welded bodies, parent filter). "
-  "nworld in {1,2,5,16} with different poses per world; sleep flag on with random trees marked asleep in half of the sleep cases. "
+  "(where a bounding-volume filter decides); 'tree' scenes from mon.gen (several geoms per body, welded bodies, parent filter); "
+  "'sapband' scenes (2 of 5 cases) where the sweep itself decides: 3-7 pairs, each on its own line parallel to the sweep axis, all "
+  "lines over the same stretch of the axis so that the sorted order interleaves geoms of different pairs; geom margins <=0.08 "
+  "(<=0.15 in margin scenes) and gaps <=0.3, half of the geoms spheres / elongated shapes pointing along the line (tight bounding "
+  "spheres); the pair's surface distance is steered into the gap band (50%), the margin band, the margin+gap edge, penetration or "
+  "just outside; some pairs explicit with own margin/gap (half of those between geoms without any), one excluded, optional far plane; "
+  "1 in 4 multi-world sapband cases carries two rows of geom_size/_rbound/_aabb/_margin/_gap and pair_margin/_gap (world w reads "
+  "row w%2, poses steered per row). "
+  "nworld in {1,2,5,16} with different poses per world; sleep flag on with random trees marked asleep in most of the sleep cases. "
   "48 (broadphase, filter) configurations per case. Non-trivial: baseline has >=1 contact and >=1 candidate pair is rejected by "
   "some filter (fewer broadphase pairs than the unfiltered run); distinct by hash(xml, poses)."
 )
@@ -28,8 +39,10 @@ ASSUMPTIONS = [
   "capacities are ample (naconmax >= nworld * number of geom pairs); a set overflow bit or a counter above capacity makes the case inconclusive",
   "sleep states are written directly into Data.body_awake after kinematics (tree-consistent), not produced by stepping",
   "collision_primitive's process-global dispatch list (finding F6, property C36) is pinned per case",
+  "the sweep axis is the literal in collision_driver.sap_broadphase (parsed from its source, else (0.5935,0.7790,0.1235)); it only steers the sapband poses and the coverage counters, never a verdict",
+  "per-world rows of batched Model fields are written into the Model returned by put_model (world w reads row w % 2); each row is a model compiled by MuJoCo, so rbound/aabb are MuJoCo's own",
 ]
-BUDGET = {"quick": 450, "thorough": 2400}
+BUDGET = {"quick": 300, "thorough": 2400}
 
 FIELDS = ("geom", "dist", "pos", "frame", "includemargin", "friction", "solref", "solreffriction", "solimp", "dim", "type")
 BITS = {1: "PLANE", 2: "SPHERE", 4: "AABB", 8: "OBB"}
@@ -43,13 +56,225 @@ TREE_PROFILE = gen.profile(
 
 def cases(tier, seed):
   out = []
-  n = 48 if tier == "quick" else 900
+  n = 40 if tier == "quick" else 900
   for i in range(n):
-    kind = ("crowd", "crowd", "pairs", "tree")[i % 4]
-    nworld = (1, 2, 5, 16)[(i // 4) % 4]
-    sleep = (i // 16) % 3 == 2
-    out.append({"id": f"{kind}{seed}_{i}", "kind": kind, "nworld": nworld, "sleep": sleep, "size": (6, 10, 14)[i % 3], "seed": seed * 1000003 + i, "weight": 1 + nworld // 4})
+    kind = ("crowd", "sapband", "pairs", "tree", "sapband")[i % 5]
+    nworld = (1, 2, 5, 16)[(i // 5) % 4]
+    sleep = (i // 5) % 7 in (4, 5)
+    case = {"id": f"{kind}{seed}_{i}", "kind": kind, "nworld": nworld, "sleep": sleep, "size": (6, 10, 14)[i % 3], "seed": seed * 1000003 + i, "weight": 1 + nworld // 4}
+    if kind == "sapband" and nworld > 1 and i % 10 == 9:
+      # two rows of geom_size/_rbound/_aabb/_margin/_gap and pair_margin/_gap (world w reads row w % 2); one kernel
+      # specialisation per leading size, so always 2 rows and never together with the sleep variants
+      case["batched"], case["sleep"] = True, False
+    out.append(case)
   return out
+
+
+SWEEP_DEFAULT = (0.5935, 0.7790, 0.1235)
+_SWEEP = None
+
+
+def sweep_axis():
+  """Unit sweep direction of the sweep-and-prune broadphases, read from the source of collision_driver.sap_broadphase
+  (it is a literal there). Only used to steer poses and to count what was exercised, never to judge."""
+  global _SWEEP
+  if _SWEEP is None:
+    a, src = np.array(SWEEP_DEFAULT), "default"
+    try:
+      from mujoco_warp._src import collision_driver as cdrv
+
+      fn = cdrv.sap_broadphase
+      while hasattr(fn, "__wrapped__"):
+        fn = fn.__wrapped__
+      mt = re.search(r"direction\s*=\s*wp\.vec3\(\s*([-+\d.eE]+)\s*,\s*([-+\d.eE]+)\s*,\s*([-+\d.eE]+)\s*\)", inspect.getsource(fn))
+      if mt:
+        v = np.array([float(mt.group(k)) for k in (1, 2, 3)])
+        if np.isfinite(v).all() and np.linalg.norm(v) > 1e-6:
+          a, src = v, "parsed"
+    except Exception:
+      pass
+    _SWEEP = (a / np.linalg.norm(a), src)
+  return _SWEEP
+
+
+def _quat_z_to(u):
+  c = float(u[2])
+  if c < -0.999999:
+    return np.array([0.0, 1.0, 0.0, 0.0])
+  q = np.array([1.0 + c, -u[1], u[0], 0.0])
+  return q / np.linalg.norm(q)
+
+
+BAND_CLASSES = ("gap", "margin", "edge", "pen", "outside")
+
+
+def _draw_band(rng, margin, gap):
+  """(class, signed surface distance) a steered pair is placed at; margin/gap are the pair's detection parameters."""
+  r = rng.random()
+  if r < 0.5 and gap > 0:
+    return "gap", margin + gap * rng.uniform(0.25, 0.98)
+  if r < 0.7 and margin > 0:
+    return "margin", margin * rng.uniform(0.05, 0.98)
+  if r < 0.8:
+    return "edge", margin + gap + rng.normal() * 0.003
+  if r < 0.9:
+    return "pen", rng.uniform(-0.03, -0.001)
+  return "outside", margin + gap + rng.uniform(0.01, 0.15)
+
+
+def _pair_id(mjm, ga, gb):
+  for i in range(mjm.npair):
+    if {int(mjm.pair_geom1[i]), int(mjm.pair_geom2[i])} == {ga, gb}:
+      return i
+  return -1
+
+
+def place_sapband(mjm, info, steer, rng):
+  """One world of the 'sapband' family. Every steered pair sits on its own line parallel to the sweep axis (lines 2.5
+  apart, so pairs of different lines never touch), all lines cover the same stretch of the axis, so that the sweep
+  order interleaves the geoms of different pairs: between the two geoms of a pair the sorted list holds geoms of other
+  lines. The pair's surface distance is steered (bisection on mj_geomDistance) into the gap band / margin band / edge.
+
+  Returns (qpos, per-pair description in float64: which term makes the projected intervals overlap, how many geoms the
+  sweep order places between the two)."""
+  axis, _ = sweep_axis()
+  e1 = np.array([0.0, 0.0, 1.0]) - axis[2] * axis
+  e1 /= np.linalg.norm(e1)
+  e2 = np.cross(axis, e1)
+  mjd = mujoco.MjData(mjm)
+  nb = len(info["body_geom"])
+  qpos = np.zeros(mjm.nq)
+  gid = lambda b: mujoco.mj_name2id(mjm, mujoco.mjtObj.mjOBJ_GEOM, info["body_geom"][b])
+  loners = [b for b in range(nb) if not any(b in p for p in steer)]
+  slots = [int(s) for s in rng.permutation(len(steer) + len(loners))]
+  origin = lambda s: np.array([0.0, 0.0, 3.0]) + e1 * 2.5 * (s % 2) + e2 * 2.5 * (s // 2) + axis * rng.uniform(-0.5, 0.5)
+  for b in loners:
+    _col._set_body_pose(qpos, b, origin(slots.pop()), _col.rquat(rng))
+  cls = {}
+  for a, b in steer:
+    ga, gb = gid(a), gid(b)
+    r = rng.random()
+    u = axis * rng.choice([-1.0, 1.0])
+    if r > 0.6:
+      u = u + rng.normal(size=3) * 0.2 if r < 0.85 else rng.normal(size=3)
+      u /= np.linalg.norm(u)
+    # elongated shapes pointing along the line make the bounding sphere tight in that direction
+    qa = _quat_z_to(u) if rng.random() < 0.4 else (_col.axis_quat(rng) if rng.random() < 0.2 else _col.rquat(rng))
+    qb = _quat_z_to(u) if rng.random() < 0.4 else (_col.axis_quat(rng) if rng.random() < 0.2 else _col.rquat(rng))
+    base = origin(slots.pop())
+    _col._set_body_pose(qpos, a, base, qa)
+    pid = _pair_id(mjm, ga, gb)
+    if pid >= 0:
+      margin, gap = float(mjm.pair_margin[pid]), float(mjm.pair_gap[pid])
+    else:
+      margin, gap = float(mjm.geom_margin[ga] + mjm.geom_margin[gb]), float(mjm.geom_gap[ga] + mjm.geom_gap[gb])
+    c, tgt = _draw_band(rng, margin, gap)
+    lo, hi = 0.0, info["rbound"][a] * 1.6 + info["rbound"][b] * 1.6 + max(tgt, 0.0) + 0.3
+    _col._set_body_pose(qpos, b, base + u * hi, qb)
+    if _col._geomdist(mjm, mjd, qpos, ga, gb, distmax=3.0) > tgt:
+      for _ in range(22):
+        mid = 0.5 * (lo + hi)
+        _col._set_body_pose(qpos, b, base + u * mid, qb)
+        if _col._geomdist(mjm, mjd, qpos, ga, gb, distmax=3.0) > tgt:
+          hi = mid
+        else:
+          lo = mid
+    _col._set_body_pose(qpos, b, base + u * hi, qb)
+    cls[(ga, gb)] = c
+  qpos = qpos.astype(np.float32).astype(np.float64)
+  mjd.qpos[:] = qpos
+  mujoco.mj_kinematics(mjm, mjd)
+  proj = mjd.geom_xpos @ axis
+  rb = np.where(mjm.geom_rbound > 0, mjm.geom_rbound, 1e10)
+  mg, gp = np.array(mjm.geom_margin), np.array(mjm.geom_gap)
+
+  def skipped(radius, ga, gb):
+    """Would a sweep over intervals proj +- radius skip the pair? The range of a sorted element ends one element after
+    the last one whose interval starts inside its own, so the later geom is skipped iff the intervals are disjoint and
+    some other geom starts in the space between them."""
+    lo, up = proj - radius, proj + radius
+    f, s = (ga, gb) if lo[ga] <= lo[gb] else (gb, ga)
+    other = np.ones(mjm.ngeom, dtype=bool)
+    other[[ga, gb]] = False
+    return bool(up[f] < lo[s] and np.any(other & (lo > up[f]) & (lo < lo[s])))
+
+  desc = []
+  full = rb + mg + gp
+  for (ga, gb), c in cls.items():
+    l0, l1 = sorted((proj[ga] - full[ga], proj[gb] - full[gb]))
+    desc.append({
+      "g": (ga, gb), "class": c, "explicit": _pair_id(mjm, ga, gb) >= 0,
+      "between": int(np.sum((proj - full > l0) & (proj - full < l1))),  # geoms the sweep order puts between the two
+      # the sweep reaches the pair, but would skip it had the interval radius lost this term
+      "needs": [] if skipped(full, ga, gb) else [k for k, r in (("gap", rb + mg), ("margin", rb + gp), ("margin_or_gap", rb)) if skipped(r, ga, gb)],
+      "skipped": skipped(full, ga, gb),  # the geoms' intervals are disjoint (only an explicit pair's own margin/gap can make this a contact)
+    })  # fmt: skip
+  return qpos, desc
+
+
+def make_sapband(case, rng, flags):
+  """Scene of the 'sapband' family: free bodies with one geom each (half of them spheres: tight bounding spheres), large
+  margins (<= 0.08) and gaps (<= 0.3) per geom, explicit <pair>s with their own margin/gap on some steered pairs, an
+  exclude on a steered pair, optionally a far static plane (infinite projected interval). Margins and gaps are written
+  into the compiled MjModel (same effect as the MJCF attributes; bounding volumes do not depend on them)."""
+  nworld = case["nworld"]
+  types = ["sphere", "capsule", "ellipsoid", "cylinder", "box", "mesh"]
+  plane = rng.random() < 0.25
+  nb = case["size"] - int(plane)
+  bt = [("sphere" if rng.random() < 0.45 else types[int(rng.integers(6))]) for _ in range(nb)]
+  steer = [(2 * k, 2 * k + 1) for k in range(nb // 2)]
+  prs = [p for p in steer if rng.random() < 0.25]
+  exs = [steer[int(rng.integers(len(steer)))]] if rng.random() < 0.3 else []
+  exs = [p for p in exs if p not in prs]
+  opts = {"flags": flags, "p_margin": 0.0, "p_params": 0.1, "plane": plane, "plane_tilt": False, "pairs": prs, "excludes": exs}
+  xml, info = _col.build_scene(rng, bt, opts)
+  xmls = [xml]
+  if case.get("batched"):
+    root = ET.fromstring(xml)
+    for g in root.iter("geom"):
+      if g.get("type") in ("sphere", "capsule", "ellipsoid", "cylinder", "box"):
+        s0 = np.array([float(v) for v in g.get("size").split()])
+        g.set("size", _col._f(s0 * rng.uniform(0.6, 1.5)))
+    xmls.append(ET.tostring(root, encoding="unicode"))
+  native_on = "nativeccd" not in flags
+  BOX = int(mujoco.mjtGeom.mjGEOM_BOX)
+  variants = []
+  margin_scene = rng.random() < 0.3  # mostly gap-free geoms with wide margins: the margin alone decides the sweep
+  bare = [g for p in prs if rng.random() < 0.5 for g in p]  # explicit pairs between geoms without margin/gap of their own
+  for x in xmls:
+    mjm = gen.compile_xml(x)
+    if mjm is None:
+      return None
+    for g in range(mjm.ngeom):
+      t = int(mjm.geom_type[g])
+      mg = 0.0 if rng.random() < 0.3 else rng.uniform(0.0, 0.15 if margin_scene else 0.08)
+      gp = 0.0 if rng.random() < (0.8 if margin_scene else 0.25) else rng.uniform(0.02, 0.3)
+      if mujoco.mj_id2name(mjm, mujoco.mjtObj.mjOBJ_GEOM, g) in [f"g{b}" for b in bare]:
+        mg = gp = 0.0
+      if t == BOX and native_on:
+        mg = 0.0  # put_model rejects margins on box-box pairs while the native box-box CCD is active
+      if t == int(mujoco.mjtGeom.mjGEOM_PLANE):
+        mg, gp = min(mg, 0.02), min(gp, 0.05)
+      mjm.geom_margin[g], mjm.geom_gap[g] = mg, gp
+    for i in range(mjm.npair):
+      mg = 0.0 if rng.random() < 0.3 else rng.uniform(0.0, 0.1)
+      if native_on and int(mjm.geom_type[mjm.pair_geom1[i]]) == BOX and int(mjm.geom_type[mjm.pair_geom2[i]]) == BOX:
+        mg = 0.0
+      mjm.pair_margin[i], mjm.pair_gap[i] = mg, (0.0 if rng.random() < 0.25 else rng.uniform(0.02, 0.4))
+    variants.append(mjm)
+  for mjm in variants:
+    mjm.opt.disableflags, mjm.opt.enableflags = variants[0].opt.disableflags, variants[0].opt.enableflags
+  info2 = [info]
+  if len(variants) == 2:
+    info2.append(dict(info, rbound=[float(variants[1].geom_rbound[mujoco.mj_name2id(variants[1], mujoco.mjtObj.mjOBJ_GEOM, n)]) for n in info["body_geom"]]))
+  qs, desc = [], []
+  for w in range(nworld):
+    q, dsc = place_sapband(variants[w % len(variants)], info2[w % len(variants)], steer, rng)
+    qs.append(q)
+    desc.append(dsc)
+  key = "|".join(xmls) + "|" + "|".join(np.concatenate([v.geom_margin, v.geom_gap, v.pair_margin, v.pair_gap]).astype(np.float32).tobytes().hex() for v in variants)
+  feats = ["sapband"] + (["static:far_plane"] if plane else []) + (["explicit_pairs"] if prs else []) + (["excludes"] if exs else []) + (["batched_geom_fields"] if len(variants) == 2 else [])
+  return key, variants[0], qs, feats, {"variants": variants, "steer": desc}
 
 
 def make(case, rng):
@@ -58,6 +283,8 @@ def make(case, rng):
   if case["sleep"]:
     flags["sleep"] = "enable"
   types = ["sphere", "capsule", "ellipsoid", "cylinder", "box", "mesh"]
+  if kind == "sapband":
+    return make_sapband(case, rng, flags)
   if kind in ("crowd", "pairs"):
     n = case["size"]
     opts = {"flags": flags, "p_margin": 0.4, "p_params": 0.1, "polytope_margin": "nativeccd" in flags}
@@ -142,17 +369,22 @@ def physical_diff(mjm, a, b, xpos):
   if missing or extra:
     if missing:
       kind = "missing-pair"
-      expl = all(any({int(mjm.pair_geom1[i]), int(mjm.pair_geom2[i])} == set(p) for i in range(mjm.npair)) for p in missing)
-      tn = {_col.GEOM_NAMES[int(mjm.geom_type[g])] for p in missing for g in p}
-      if expl:
-        # the known mechanism needs the pair's own margin+gap to exceed what the filters use (the geoms' margin+gap)
-        def wider(p):
-          i = [i for i in range(mjm.npair) if {int(mjm.pair_geom1[i]), int(mjm.pair_geom2[i])} == set(p)][0]
-          return float(mjm.pair_margin[i] + mjm.pair_gap[i]) > float(mjm.geom_margin[list(p)].sum() + mjm.geom_gap[list(p)].sum())
 
-        kind += ":explicit-pair-margin" if all(wider(p) for p in missing) else ":explicit-pair"
+      # the known mechanism needs an explicit pair whose own margin+gap exceeds what the broadphase uses (the geoms' margin+gap)
+      def wider(p):
+        i = _pair_id(mjm, *p)
+        return i >= 0 and float(mjm.pair_margin[i] + mjm.pair_gap[i]) > float(mjm.geom_margin[list(p)].sum() + mjm.geom_gap[list(p)].sum())
+
+      rest = [p for p in missing if not wider(p)]  # pairs the known mechanism does not explain decide the kind
+      if not rest:
+        kind += ":explicit-pair-margin"
       else:
-        kind += ":plane" if "plane" in tn else (":hfield" if "hfield" in tn else "")
+        missing = rest
+        tn = {_col.GEOM_NAMES[int(mjm.geom_type[g])] for p in missing for g in p}
+        if all(_pair_id(mjm, *p) >= 0 for p in missing):
+          kind += ":explicit-pair"
+        else:
+          kind += ":plane" if "plane" in tn else (":hfield" if "hfield" in tn else "")
     else:
       kind = "extra-pair"
     return kind, f"missing pairs {missing[:4]}, extra pairs {extra[:4]}"
@@ -205,7 +437,9 @@ def run_case(case):
   if made is None:
     rec.rejected = "mujoco compile"
     return rec.result()
-  xml, mjm, qs, feats = made
+  xml, mjm, qs, feats = made[:4]
+  extra = made[4] if len(made) > 4 else None
+  variants = extra["variants"] if extra else [mjm]  # world w is described by variants[w % len(variants)]
   _col.pin_primitive_dispatch(mjm)
   try:
     m = mw.put_model(mjm)
@@ -213,6 +447,16 @@ def run_case(case):
     rec.rejected = f"put_model: {e}"[:200]
     rec.count("rejected_put_model")
     return rec.result()
+  if len(variants) > 1:
+    nv = len(variants)
+    m.geom_size = wp.array(np.stack([v.geom_size for v in variants]).astype(np.float32), dtype=wp.vec3)
+    m.geom_rbound = wp.array(np.stack([v.geom_rbound for v in variants]).astype(np.float32), dtype=float)
+    m.geom_aabb = wp.array(np.stack([v.geom_aabb for v in variants]).astype(np.float32).reshape(nv, mjm.ngeom, 2, 3), dtype=wp.vec3)
+    m.geom_margin = wp.array(np.stack([v.geom_margin for v in variants]).astype(np.float32), dtype=float)
+    m.geom_gap = wp.array(np.stack([v.geom_gap for v in variants]).astype(np.float32), dtype=float)
+    if mjm.npair:
+      m.pair_margin = wp.array(np.stack([v.pair_margin for v in variants]).astype(np.float32), dtype=float)
+      m.pair_gap = wp.array(np.stack([v.pair_gap for v in variants]).astype(np.float32), dtype=float)
   nworld = len(qs)
   npair = mjm.ngeom * (mjm.ngeom - 1) // 2
   d = mjw.make_data(mjm, nworld=nworld, nconmax=max(64, 2 * npair + 8 * mjm.ngeom), njmax=8)
@@ -266,12 +510,12 @@ def run_case(case):
         if all(cw[k] == base_c[w][0][k] for k in FIELDS):
           rec.count("world_configs_bit_equal")
           continue
-        kind, detail = physical_diff(mjm, base[w], got[w], xpos[w])
+        kind, detail = physical_diff(variants[w % len(variants)], base[w], got[w], xpos[w])
         if kind is None:
           rec.count("world_configs_equal_up_to_geom_order")
           swapped.setdefault((bp, mask), (w, detail))
         else:
-          bad.setdefault((bp, mask), (w, kind, detail))
+          bad.setdefault(kind, {}).setdefault((bp, mask), (w, kind, detail))  # first world per (kind, configuration)
   def culprit_of(table):
     """A broadphase type alone, one filter bit alone, or only a combination; plus a representative configuration."""
     culprit = None
@@ -305,22 +549,52 @@ def run_case(case):
       f"world {w} under broadphase {BP[key[0]]} filter mask {key[1]}: same physical contacts as NXN/no-filter but contact.geom order (and normal sign) reversed for "
       f"same-type pairs {detail[:6]}; {len(swapped)} of 47 configurations affected",
     )
-  kinds = {}
-  for k, v in bad.items():
-    kinds.setdefault(v[1], {})[k] = v
-  for kind, table in sorted(kinds.items()):
+  kinds = []
+  for kind, table in sorted(bad.items()):
+    if kind == "missing-pair:explicit-pair-margin":
+      # two places use the geoms' margin+gap where the explicit pair's own apply: the four bounding-volume filters
+      # (any mask != 0, any broadphase) and the sweep's projected intervals (SAP, already without a filter)
+      flt = {k: v for k, v in table.items() if k[1] != 0}
+      sap = {k: v for k, v in table.items() if k[1] == 0}
+      if flt:
+        kinds.append((kind, flt, "filter:missing-pair:explicit-pair-margin"))
+      if sap:
+        kinds.append((kind, sap, "SAP:missing-pair:explicit-pair-margin"))
+    else:
+      kinds.append((kind, table, None))
+  for kind, table, sig in kinds:
     culprit, key = culprit_of(table)
     if kind == "swapped-pair-contact-differs" and all(k[0] > 0 for k in table):
       culprit = "SAP"
-    sig = f"{culprit}:{kind}"
-    if kind == "missing-pair:explicit-pair-margin" and culprit.startswith("filter-"):
-      sig = "filter:missing-pair:explicit-pair-margin"  # all four bounding-volume filters use the geoms' margin+gap
+    sig = sig or f"{culprit}:{kind}"
     w, _, detail = table[key]
     rec.viol(
       sig,
       f"contacts of world {w} under broadphase {BP[key[0]]} filter mask {key[1]} differ from NXN/no-filter: {detail}; {len(table)} of 47 configurations differ: {sorted(table)[:8]}",
       configs=[list(k) for k in sorted(table)],
     )
+  if extra:
+    # what the steered pairs of the sapband family exercised: a pair counts when the baseline reports a contact for it
+    # (so dropping it is observable); "overlap_by" names the term of the projected interval radius
+    # (rbound + margin + gap) without which the sweep would no longer see the two intervals overlap
+    rec.cover("sap:sweep_axis", sweep_axis()[1])
+    for w in range(nworld):
+      have = {tuple(sorted(int(x) for x in g)) for g in np.asarray(base[w]["geom"]).reshape(-1, 2)}
+      for s in extra["steer"][w]:
+        rec.cover(f"sap:steered_pairs:{s['class']}", 1)
+        if tuple(sorted(s["g"])) not in have:
+          continue
+        tag = "explicit_pairs" if s["explicit"] else "pairs"
+        rec.cover(f"sap:contact_{tag}", 1)
+        if s["between"] > 0:
+          rec.cover(f"sap:contact_{tag}_with_geoms_sorted_between", 1)
+        for k in s["needs"]:
+          rec.cover(f"sap:contact_{tag}_swept_only_thanks_to_{k}", 1)
+        if s["skipped"]:
+          rec.cover(f"sap:contact_{tag}_outside_the_sweep_range_of_the_geom_intervals", 1)
+    if len(variants) > 1:
+      rec.cover("sap:batched_cases", 1)
+      rec.cover("sap:batched_worlds_reading_row_1", nworld // 2)
   for f in feats:
     rec.cover("features", f)
   rec.cover(f"nworld:{nworld}", 1)
@@ -345,9 +619,15 @@ def requirements(agg, tier):
     if not cov.get(f"nworld:{nw}"):
       unmet.append(f"nworld={nw} never run")
   feats = set(cov.get("features", []))
-  for f in ("crowd", "pairs", "tree", "static:plane", "static:hfield", "explicit_pairs", "excludes"):
+  for f in ("crowd", "pairs", "tree", "sapband", "static:plane", "static:hfield", "explicit_pairs", "excludes", "batched_geom_fields"):
     if f not in feats:
       unmet.append(f"feature never generated: {f}")
+  # the sapband family must have produced what it exists for: contacts of pairs that the sweep only reaches because
+  # margin / gap widen the projected intervals (with another geom starting between the two narrower intervals: the sweep
+  # range covers one sorted neighbour too many, so adjacent geoms are always tested)
+  for name, least in (("sap:contact_pairs_swept_only_thanks_to_gap", 10), ("sap:contact_pairs_swept_only_thanks_to_margin", 3), ("sap:contact_pairs_with_geoms_sorted_between", 20), ("sap:batched_worlds_reading_row_1", 2)):
+    if cov.get(name, 0) < least:
+      unmet.append(f"sapband family: {name} = {cov.get(name, 0)} < {least}")
   if cov.get("bodies_marked_asleep", 0) < 5:
     unmet.append("fewer than 5 sleeping bodies across sleep cases")
   if cov.get("baseline_contacts", 0) < 200:
